@@ -57,10 +57,13 @@ pred balances(lb LoadBalancer, servers []*Server) := lbServersArr(lb) == ref(ser
 // C03: a server is addressed by host name iff the host part of its URL - without the port and without the
 // brackets of an IPv6 literal - is not an IP address (the client's Host is kept for IP-addressed servers)
 pred noByte(x string, c int) := forall j int :: 0 <= j && j < len(x) ==> x[j] != c
+ghost var addrChecked mmap[int]bool   // servers whose address kind has been determined (checkAddrPattern ran on them)
 func (s *Server) checkAddrPattern()
   flag ascii
   requires s != nil
-  modifies s.addrIsHostName
+  modifies s.addrIsHostName, addrChecked
+  ensures recorded-as-determined: addrChecked == old(store(addrChecked, ref(s), true))
+  ghost at entry: addrChecked := store(addrChecked, ref(s), true)
   ensures plain-host: (let h = urlHostOf(s.URL) in (urlOK(s.URL) && noByte(h, 58) && noByte(h, 93) ==> s.addrIsHostName == !validIP(h)))
   ensures host-with-port: forall c int :: (let h = urlHostOf(s.URL) in (urlOK(s.URL) && noByte(h, 93) && 0 <= c && c < len(h) && h[c] == 58 && (forall j int :: 0 <= j && j < len(h) && j != c ==> h[j] != 58) ==> s.addrIsHostName == !validIP(substr(h, 0, c))))
   ensures bracketed-ipv6-without-port: (let h = urlHostOf(s.URL) in (urlOK(s.URL) && len(h) >= 2 && h[0] == 91 && h[len(h) - 1] == 93 && (forall j int :: 0 <= j && j < len(h) - 1 ==> h[j] != 93) ==> s.addrIsHostName == !validIP(substr(h, 1, len(h) - 2))))
@@ -69,9 +72,10 @@ func (s *Server) checkAddrPattern()
 
 func (sp *ServerPool) createLoadBalancer(servers []*Server)
   requires sp != nil && sp.spec != nil && noNil(servers)
-  modifies sp.loadBalancer.v, allof("filters/proxy.Server.addrIsHostName")
+  modifies sp.loadBalancer.v, allof("filters/proxy.Server.addrIsHostName"), addrChecked
   ensures published: sp.loadBalancer.v != nil && balances(sp.loadBalancer.v, servers)
-  invariant[1] true
+  ensures every-member-it-balances-over-has-its-address-kind-determined: forall k int :: 0 <= k && k < len(servers) ==> addrChecked[ref(servers[k])]
+  invariant[1] forall k int :: 0 <= k && k < idx$1 ==> addrChecked[ref(servers[k])]
 
 func NewLoadBalancer(spec *LoadBalanceSpec, servers []*Server) (lb LoadBalancer)
   requires spec != nil && noNil(servers)
@@ -136,7 +140,8 @@ func (sp *ServerPool) useService(instances map[string]*serviceregistry.ServiceIn
   flag paths=split
   requires sp != nil && sp.spec != nil && noNil(sp.spec.Servers)
   requires forall n string :: (n in instances) ==> instances[n] != nil
-  modifies gLBList, gPosOf, gSrcOf, gTagOf, sp.loadBalancer.v, allof("filters/proxy.Server.addrIsHostName")
+  modifies gLBList, gPosOf, gSrcOf, gTagOf, sp.loadBalancer.v, allof("filters/proxy.Server.addrIsHostName"), addrChecked
+  ensures every-chosen-member-has-its-address-kind-determined: forall k int :: 0 <= k && k < len(gLBList) ==> addrChecked[ref(gLBList[k])]
   ensures balancer-is-published-over-the-chosen-list: sp.loadBalancer.v != nil && balances(sp.loadBalancer.v, gLBList)
   ensures every-pool-member-is-a-tagged-instance: (exists n string :: (n in instances) && tagged(sp, instances[n])) ==> (forall k int :: 0 <= k && k < len(gLBList) ==> (exists n string :: (n in instances) && tagged(sp, instances[n]) && builtFrom(gLBList[k], instances[n])))
   ensures every-tagged-instance-is-a-pool-member: forall n string :: (n in instances) && tagged(sp, instances[n]) ==> (exists k int :: 0 <= k && k < len(gLBList) && builtFrom(gLBList[k], instances[n]))
